@@ -431,11 +431,20 @@ class NetworkService(ModelElement):
         :param kwargs: typically labels and capacities to put on the interface facing the other service
         """
         assert(isinstance(ns, NetworkService))
-        self_iface = self.add_interface(name=self.name + '-' + ns.name, itype=InterfaceType.ServicePort, **kwargs)
-        other_iface = ns.add_interface(name=ns.name + '-' + self.name, itype=InterfaceType.ServicePort)
-        # link them together with L2Path
-        peer_link = Link(name=self_iface.name + '-link', topo=self.topo, etype=ElementType.NEW,
-                         interfaces=[self_iface, other_iface], ltype=LinkType.L2Path)
+        created = list()
+        try:
+            self_iface = self.add_interface(name=self.name + '-' + ns.name, itype=InterfaceType.ServicePort, **kwargs)
+            created.append(self_iface)
+            other_iface = ns.add_interface(name=ns.name + '-' + self.name, itype=InterfaceType.ServicePort)
+            created.append(other_iface)
+            # link them together with L2Path
+            peer_link = Link(name=self_iface.name + '-link', topo=self.topo, etype=ElementType.NEW,
+                             interfaces=[self_iface, other_iface], ltype=LinkType.L2Path)
+        except Exception:
+            # a peering is a single construct: do not leave a ServicePort without its peer behind
+            for i in created:
+                self.topo.graph_model.remove_cp_and_links(node_id=i.node_id)
+            raise
         # update interface lists
         self._interfaces.append(self_iface)
         ns._interfaces.append(other_iface)
